@@ -28,6 +28,10 @@ def run(model, rep, tier):
     from . import lifetime
     rep.rule('C01.R8', "each run sees only its own inputs (rules/lifetime.py): no function of the package is memoised across runs (functools.lru_cache / cache), module-level containers that functions add to are emptied at the start of a run, no mutable class attribute is shared through instances (mutated in place or handed out without being re-bound per instance), and no option with a mutable argparse default is mutated in place after parsing -- a second run in the same process (other layer objects under the same names, other outcomes, other filters) must not inherit the first run's state")
     lifetime.check(ctx, rep, 'C01.R8')
+    # output.stop_set_up / stop_tear_down run between the hook and the bookkeeping: the formatter must not
+    # raise there on its own data (shared with C04.R15)
+    from . import c04 as _c04
+    _c04.r15_integer_format_of_float(ctx, rep, 'C01.R9')
     rep.units['cfg'] = ctx.cfg_stats
 
 
